@@ -73,6 +73,9 @@ def schedules(tier):
     # a long-lived session: 250 exchanges, each of which first skips a non-matching datagram, then an unanswered request -
     # whatever the receive path re-arms or restores per request must not drift
     out.append({"name": "L-after-250-strayed-exchanges", "warmup": 250, "strays": [], "reply": None, "expect": "timeout", "sync_only": False})
+    # a sustained run of strays a few milliseconds apart (180 of them, 5 ms apart, until 0.9 T with T = 1 s), then silence
+    out.append({"name": "D-dense-strays-then-silence", "T": 1.0, "strays": [round(0.005 * i, 3) for i in range(1, 181)], "reply": None, "expect": "timeout"})
+    out.append({"name": "D-dense-strays-then-reply", "strays": [round(0.01 * i, 3) for i in range(1, 41)], "reply": 0.8, "expect": "value"})
     # a timeout above one second: an early stray, then the reply after more than a second but well inside the timeout
     out.append({"name": "T-long-timeout-early-stray", "T": 1.7, "strays": [0.06], "reply": 0.7, "expect": "value"})
     out.append({"name": "H-timeout-then-late-reply", "seq": [
@@ -327,6 +330,39 @@ def main():
         for b in res["bad"]:
             chk.violation(b["sig"], b["msg"], b)
     chk.seen(tot)
+    # degenerate timeouts: a positive timeout below the socket timer's resolution (1 us) is still a timeout - the call
+    # must come back (TimeoutError), not wait for ever.  Each probe is its own process under a 6 s watchdog; only a
+    # process that is still blocked after 6 s on all three attempts is a verdict.
+    import subprocess
+    stage = build.stage_python("rel")
+    env = build.python_env("rel", stage)
+    probe = ("import sys, socket\n"
+             "from gufo.snmp import SnmpVersion\n"
+             "from gufo.snmp.sync_client import SnmpSession\n"
+             "s = socket.socket(socket.AF_INET, socket.SOCK_DGRAM); s.bind(('127.0.0.1', 0))\n"
+             "with SnmpSession('127.0.0.1', port=s.getsockname()[1], community='public', version=SnmpVersion.v2c, timeout=float(sys.argv[1])) as x:\n"
+             "    try:\n"
+             "        x.get('1.3.6.1.2.1.1.1.0'); print('returned a value')\n"
+             "    except TimeoutError: print('TimeoutError')\n"
+             "    except Exception as e: print('other:', type(e).__name__)\n")
+    tiny = {}
+    for tmo in ("5e-7", "1e-9", "9.99e-7", "1e-6", "2e-3"):
+        outcomes = []
+        for _ in range(3):
+            try:
+                pr = subprocess.run([build.REAL_PY, "-c", probe, tmo], env=env, capture_output=True, text=True, timeout=6)
+                outcomes.append(pr.stdout.strip() or ("rc=%s %s" % (pr.returncode, pr.stderr.strip()[-120:])))
+                break
+            except subprocess.TimeoutExpired:
+                outcomes.append("still blocked after 6 s")
+        tiny[tmo] = outcomes[-1]
+        chk.distinct.add("tiny-timeout:%s" % tmo)
+        chk.seen(1)
+        if outcomes == ["still blocked after 6 s"] * 3:
+            chk.violation("never-returns:sync", "sync get() with timeout=%s s against a silent agent did not return within 6 s (3 attempts out of 3)" % tmo, {"timeout": tmo})
+        elif outcomes[-1] not in ("TimeoutError",):
+            chk.inconc("tiny timeout %s: %s" % (tmo, outcomes))
+    chk.extra["tiny_timeouts"] = tiny
     chk.extra["durations_s"] = durs
     chk.extra["exhaustive"] = True
     chk.floor("cases", tot, 50)
